@@ -338,8 +338,10 @@ def drop_loop(d, out):
             del m[out]
 
 
-def maybe_default_loop(d, out, rng, site):
-    if _get(d, "architecture") is None and rng.random() < 0.5:
+def maybe_default_loop(d, out, rng, site, p=0.5):
+    """With probability p let the default loop order apply, so that the rest of the specification stays consistent with
+    the changed partitioning (otherwise a stale explicit loop order is what gets rejected, whatever the guard does)."""
+    if _get(d, "architecture") is None and rng.random() < p:
         drop_loop(d, out)
         return site + " default-loop"
     return site
@@ -842,7 +844,7 @@ def inj_nway_after_occupancy(data, rng, cap):
                 ds.insert(i, "uniform_occupancy(%s.3)" % ld)
             parts[k] = ds
         pat = "".join({"uniform_shape": "S", "nway_shape": "N", "uniform_occupancy": "O"}.get(parse_directive(x)[0], "?") for x in parts[k])
-        yield "nway_after_occupancy", "einsum %d stack %s (%s)" % (ei, pat, how), d
+        yield "nway_after_occupancy", maybe_default_loop(d, e["out"]["name"], rng, "einsum %d stack %s (%s)" % (ei, pat, how), 0.9), d
 
 
 def inj_shape_after_flatten(data, rng, cap):
@@ -896,7 +898,7 @@ def inj_shape_after_flatten(data, rng, cap):
         keys = list(parts)
         pos = keys.index(k) + (0 if where == "before" else 1)
         insert_entry(parts, name, ds, pos)
-        yield "shape_after_flatten", maybe_default_loop(d, e["out"]["name"], rng, "einsum %d key %s variant %d %s" % (ei, k, variant, where)), d
+        yield "shape_after_flatten", maybe_default_loop(d, e["out"]["name"], rng, "einsum %d key %s variant %d %s" % (ei, k, variant, where), 0.9), d
 
 
 def inj_directive_on_tuple(data, rng, cap):
@@ -1043,10 +1045,67 @@ def inj_missing_config(data, rng, cap):
         yield "missing_config", "einsum %s item %d %s" % (es, i, how), d
 
 
+def inj_extras(data, rng, cap):
+    """Guards of the code that are NOT among the stated rules (the guard model has them too): a duplicate rank in a
+    rank-order entry, an upper partition level in a flatten tuple, an n-way split after follow().  They exercise the
+    correspondence of the guard model with the code where no stated rule applies (rule name prefixed `extra:`)."""
+    es = exprs_of(data)
+    sites = []
+    decl = data["einsum"]["declaration"]
+    for t, rs in decl.items():
+        if rs and len(rs) >= 1:
+            sites.append(("rank_order", t, None))
+    for ei, e in enumerate(es):
+        parts = parts_of(data, e["out"]["name"]) or {}
+        roots = _all_root_ranks(data, e)
+        im = has_index_math(data, e)
+        for k, ds in parts.items():
+            ranks = parse_key(k)
+            if len(ranks) == 1 and ds and ranks[0] in roots and ranks[0] not in im and \
+                    all(parse_directive(x)[0] in ("uniform_shape", "nway_shape") for x in ds):
+                sites.append(("upper_level", ei, k))
+                sites.append(("nway_after_follow", ei, k))
+    rng.shuffle(sites)
+    for how, a, k in sites[:cap]:
+        d = copy.deepcopy(data)
+        if how == "rank_order":
+            rs = list(eff_ranks(d, a))
+            rs.insert(rng.randint(0, len(rs)), rng.choice(rs))
+            d.setdefault("mapping", {})
+            if d["mapping"] is None:
+                d["mapping"] = {}
+            if d["mapping"].get("rank-order") is None:
+                d["mapping"]["rank-order"] = {}
+            d["mapping"]["rank-order"][a] = rs
+            yield "extra:dup_rank_order", "tensor %s" % a, d
+        elif how == "upper_level":
+            e = es[a]
+            parts = parts_of(d, e["out"]["name"])
+            busy = set(x for kk in parts for x in parse_key(kk))
+            others = [x for x in _all_root_ranks(d, e) if x not in busy and x not in has_index_math(d, e)]
+            if not others:
+                continue
+            lvl = "%s%d" % (k, rng.randint(1, len(parts[k])))
+            tup = [lvl, rng.choice(others)]
+            rng.shuffle(tup)
+            insert_entry(parts, render_key(tup), ["flatten()"], rng.randint(0, len(parts)))
+            yield "extra:multiple_partitionings", maybe_default_loop(d, e["out"]["name"], rng, "einsum %d level %s" % (a, lvl)), d
+        else:
+            e = es[a]
+            parts = parts_of(d, e["out"]["name"])
+            busy = set(x for kk in parts for x in parse_key(kk))
+            others = [x for x in _all_root_ranks(d, e) if x not in busy and x not in has_index_math(d, e)]
+            if not others:
+                continue
+            o = rng.choice(others)
+            insert_entry(parts, o, ["follow(%s)" % k, "nway_shape(2)"], rng.randint(0, len(parts)))
+            yield "extra:nway_after_follow", maybe_default_loop(d, e["out"]["name"], rng, "einsum %d rank %s follows %s" % (a, o, k)), d
+
+
 INJECTORS = [inj_dup_rank, inj_undeclared, inj_repeated, inj_term_mismatch, inj_flatten_with_others, inj_flatten_lt2,
              inj_flatten_index_math, inj_flatten_and_partitioned, inj_flatten_of_flattened, inj_nway_after_occupancy,
              inj_shape_after_flatten, inj_directive_on_tuple, inj_project_into_output, inj_output_only_flattened,
-             inj_missing_config]
+             inj_missing_config, inj_extras]
 
 RULES = ["dup_rank", "undeclared_tensor", "repeated_tensor", "term_rank_mismatch", "flatten_with_others", "flatten_lt2",
          "flatten_index_math", "flatten_and_partitioned", "flatten_of_flattened", "nway_after_occupancy",
